@@ -31,9 +31,9 @@ def match_finding(v, kk):
                    site.get("next2") if site.get("next") in ("(", "sizeof(") else ""]
             if tup in m["table"]:
                 return key
-            # an operator glued to a following "(": the charts (levels 1-2, every charted content of the parenthesis: 30 classes, all
+            # a violation next to a following "(" (operator glued to it, blank missing in front of the operator before it ...): the charts (levels 1-2, every charted content of the parenthesis: 30 classes, all
             # "always missed") show that what the parenthesis contains plays no part -- the class is (operator, literal, previous item, "(")
-            if v["op"] == "no_space_after_op" and tup[3] == "(" and any(t[:4] == tup[:4] for t in m["table"]):
+            if tup[3] == "(" and any(t[:4] == tup[:4] for t in m["table"]):
                 return key
             continue
         if m.get("op") != v["op"]:
@@ -176,6 +176,10 @@ def replay(pid, path):
     hit = any(g[0] in rec["expected_codes"] and (line is None or g[1] == line) for g in got)
     print("expected", rec["expected_codes"], "on line", line, "; reported:", [g for g in got if line is None or abs((g[1] or 0) - line) <= 1], "status", o["status"])
     if not hit or o["status"] != "Error":
+        key = match_finding(dict(op=rec.get("operator"), site=rec.get("site") or {}), known_keys(pid))
+        if key and o["exc"] is None and not o["fatal"]:
+            print(f"KNOWN-FINDING: property={pid} {key}")
+            return 0
         print(f"VIOLATION property={pid} replay={path}")
         return 1
     return 0
